@@ -7,6 +7,7 @@
 mod client;
 mod reader;
 mod tracker;
+mod vclock;
 
 use std::path::PathBuf;
 
